@@ -148,6 +148,9 @@ pub struct ScriptedReader<'a> {
     /// the transport is not ready once, at the first read issued at or after this stream position (reads before it do
     /// not cross it): a Pending at a *position* of the stream, however the caller sizes its reads
     pub pend_once_at: Option<usize>,
+    /// the transport has nothing more from this stream position on, for as long as it is polled (the peer stalls): every
+    /// read issued at or after it is not ready; reads before it do not cross it
+    pub stall_at: Option<usize>,
 }
 
 thread_local! {
@@ -181,6 +184,7 @@ impl<'a> ScriptedReader<'a> {
             idle_at_end: false,
             idle_polls: 0,
             pend_once_at: None,
+            stall_at: None,
         }
     }
     pub fn with_fault(mut self, pos: usize, kind: io::ErrorKind) -> Self {
@@ -214,6 +218,17 @@ impl<'a> AsyncRead for ScriptedReader<'a> {
             }
             cx.waker().wake_by_ref();
             return Poll::Pending;
+        }
+        if let Some(sp) = me.stall_at {
+            if me.pos >= sp {
+                me.step_idx -= 1;
+                me.pendings.set(me.pendings.get() + 1);
+                if me.keep_log {
+                    me.log.push(ReadRec { pos: me.pos, cap, got: None });
+                }
+                cx.waker().wake_by_ref();
+                return Poll::Pending;
+            }
         }
         if let Some(pp) = me.pend_once_at {
             if me.pos >= pp {
@@ -291,6 +306,11 @@ impl<'a> AsyncRead for ScriptedReader<'a> {
         if let Some(pp) = me.pend_once_at {
             if pp > me.pos {
                 n = n.min(pp - me.pos);
+            }
+        }
+        if let Some(sp) = me.stall_at {
+            if sp > me.pos {
+                n = n.min(sp - me.pos);
             }
         }
         if me.delay_us > 0 && n > 0 {
